@@ -194,6 +194,23 @@ Definition law_dispatch (arg nid : positive) (res : Z) (rb : list positive) (b a
   | None => false
   end.
 
+(* ---- audit round: three clauses of the property text evaluated at FULL strength; the failing
+        classes are documented known findings (the harness attaches the sig) ---- *)
+
+(* "nothing of an undecided transaction reaches the binder": no task handed to the binder by a
+   Session.Allocate is recorded in a statement that is still open at that moment *)
+Definition law_undecided (recorded : list positive) (binds : list (positive * option positive)) : bool :=
+  forallb (fun b => negb (bool_decide (fst b ∈ recorded))) binds.
+
+(* "a failed operation leaves no trace" for the task the failed Session.Allocate was called with:
+   it is Pending again, NodeName empty, off the node *)
+Definition law_arg_restored (arg nid : positive) (a : dump) : bool :=
+  match d_heap a !! arg with
+  | Some ta => bool_decide (t_status ta = Pending) && bool_decide (t_node ta = None) &&
+               negb (held_on a (Some nid) arg)
+  | None => false
+  end.
+
 Definition entry (sel : Z) (toks : list Z) : list Z :=
   match sel with
   | 1 => match run_dec dCase toks with
@@ -210,6 +227,17 @@ Definition entry (sel : Z) (toks : list Z) : list Z :=
                           let* b := dDump in let* a := dDump in let* bs := dList (dPair dPos dNodeRef) in
                           ret (ar, nd, r, rb, b, a, bs)) toks with
            | Some (ar, nd, r, rb, b, a, bs) => eBool (law_dispatch ar nd r rb b a bs)
+           | None => bad_input end
+  | 106 => match run_dec (let* rec := dList dPos in let* bs := dList (dPair dPos dNodeRef) in ret (rec, bs)) toks with
+           | Some (rec, bs) => eBool (law_undecided rec bs)
+           | None => bad_input end
+  (* a failed Allocate / Pipeline (Statement or Session) on a task OUTSIDE the call sites'
+     precondition (not Pending, or already on a node): no trace either *)
+  | 107 => match run_dec (dPair dDump dDump) toks with
+           | Some (b, a) => eBool (law_discard b a)
+           | None => bad_input end
+  | 108 => match run_dec (let* ar := dPos in let* nd := dPos in let* a := dDump in ret (ar, nd, a)) toks with
+           | Some (ar, nd, a) => eBool (law_arg_restored ar nd a)
            | None => bad_input end
   | 101 => match run_dec (let* o := dZ in let* r := dZ in let* t := dZ in let* b := dDump in let* a := dDump in
                           let* nb := dZ in let* ne := dZ in ret (o, r, t, b, a, nb, ne)) toks with
